@@ -12,7 +12,7 @@ implementation's answers and prints one verdict per line:
 -/
 namespace GeomV.C05
 open GeomV GeomV.C05.Ogc
-open GeomV.C05.Stream (IOErr Ev SErr Script readS scriptSrc scriptFuel avail)
+open GeomV.C05.Stream (IOErr Ev SErr Script readS scriptSrc scriptFuel avail afterErr)
 
 def lcg (s : Nat) : Nat := (s * 6364136223846793005 + 1442695040888963407) % 2^64
 
@@ -112,6 +112,34 @@ def prepRdmix (seed : Nat) (n : Nat) (rest : Tok) : String :=
       let cls := ["whole", "whole", "fail", "dataerr"].getD errMode "x" ++ (if errMode < 2 || e == .eof then "" else "-own")
       s!"rdscript {n} {k} {cls} {" ".intercalate (gs.map Proto.geomStr)} | {" ".intercalate (evs.map evTok)}"
 
+/-- `rdretrymix seed g1 g2` → `rdretry cls g2 | events…`: the reader delivers a proper prefix (possibly empty) of a
+serialization of `g1`, fails (`io.EOF` or its own error, alone or together with the last bytes), then delivers a
+complete serialization of `g2` and perhaps a few more bytes -/
+def prepRetry (seed : Nat) (rest : Tok) : String :=
+  match pGeoms 2 rest with
+  | some ([g1, g2], _) =>
+    let (t1, s0) := randTree 3 (lcg seed)
+    let (t2, _) := randTree 3 s0
+    match serializeMixed t1 g1, serializeMixed t2 g2 with
+    | some e1, some e2 =>
+      let s1 := lcg (seed + 29)
+      let s2 := lcg s1
+      let s3 := lcg s2
+      let s4 := lcg s3
+      let pos := if s1 / 2^40 % 4 == 0 then 0 else s1 / 2^33 % e1.length
+      let e : IOErr := if s2 / 2^40 % 3 == 0 then .eof else .other (s2 / 2^41 % 5 + 3)
+      let together := s2 / 2^33 % 2 == 0
+      let mode := s3 / 2^33 % 4
+      let trailing : Bytes := [[], [], [2], [0, 0, 0, 0, 9, 1]].getD (s4 / 2^33 % 4) []
+      let p' := if together then pos - min pos (s4 / 2^50 % 6) else pos
+      let errEv : Ev := if together then .dataErr ((e1.take pos).drop p') e else .fail e
+      let tail := e2 ++ trailing
+      let evs := cut mode (p' * 2 + 8) s3 (e1.take p') ++ [errEv] ++ cut ((mode + 1) % 4) (tail.length * 2 + 8) s4 tail
+      let cls := (if together then "dataerr" else "fail") ++ (if e == .eof then "" else "-own") ++ (if pos == 0 then "-between" else "-inside")
+      s!"rdretry {cls} {Proto.geomStr g2} | {" ".intercalate (evs.map evTok)}"
+    | _, _ => "skip unserializable"
+  | _ => "skip parse-error"
+
 def prepLine (line : String) : String :=
   match tokens line with
   | "mix" :: seed :: rest =>
@@ -122,6 +150,7 @@ def prepLine (line : String) : String :=
       | some bs => s!"mdec {Proto.geomStr g} | {bytesToHex bs}"
       | none => s!"skip unserializable"
     | none => "skip parse-error"
+  | "rdretrymix" :: seed :: rest => prepRetry (seed.toNat?.getD 0) rest
   | "rdmix" :: seed :: n :: rest => prepRdmix (seed.toNat?.getD 0) (n.toNat?.getD 0) rest
   | _ => line
 
@@ -309,6 +338,27 @@ def judgeLine (line : String) : String :=
           s!"SPEC {cls} successive-streaming-reads-of-wholly-delivered-encodings-differ got={" ".intercalate (rhs.take 12)}"
         else if rhs == want then s!"OK {cls}"
         else s!"DIFF {cls} model={" ".intercalate (want.drop (want.length - 3))} impl={" ".intercalate (rhs.drop (rhs.length - 3))}"
+      | none => "BAD parse"
+    | _ => "BAD parse"
+  | "rdretry" :: cls0 :: rest =>
+    -- wkb.Read twice on a reader that fails before/inside a first encoding and then delivers a complete one: the
+    -- second call starts at the first byte of that encoding and must return its value (SPEC); the first call's error
+    -- class and the bytes handed out are compared with `readS` on the script and on `afterErr` of it (DIFF)
+    match geomOfToks rest with
+    | some (g2, "|" :: evt) =>
+      match evt.mapM parseEv with
+      | some (s : Script) =>
+        let cls := s!"rdretry-{cls0}"
+        let first : Tok := match readS scriptSrc (scriptFuel s) s with
+          | .ok (g, _) => "ok" :: Proto.geomToks g
+          | .error e => [sErrTok e]
+        let s2 := afterErr s
+        let second := runReads ((avail s).length + (avail s2).length) 1 s2
+        let got2 := (rhs.dropWhile (· != "then")).drop 1
+        if (segments 2 got2).head? != some ("ok" :: Proto.geomToks g2) then
+          s!"SPEC {cls} second-Read-on-a-reader-that-resumed-after-its-error-does-not-return-the-complete-encoding-it-delivered got={" ".intercalate (got2.take 8)}"
+        else if rhs == first ++ ["then"] ++ second then s!"OK {cls}"
+        else s!"DIFF {cls} model={" ".intercalate (first.take 2)} then {" ".intercalate (second.drop (second.length - 1))} impl={" ".intercalate (rhs.take 1)} … {" ".intercalate (rhs.drop (rhs.length - 1))}"
       | none => "BAD parse"
     | _ => "BAD parse"
   | "seqwr" :: n :: rest =>
